@@ -45,9 +45,10 @@ class DecoderModel:
         self._cache = {}
 
     def spec(self, key: str) -> SymEval:
-        if key not in self._cache:
-            self._cache[key] = self.eng.symeval(self.f.qualname, bind={self.anam: ("const", key)})
-        return self._cache[key]
+        cache = self.eng.__dict__.setdefault("_spec_cache", {})
+        if key not in cache:
+            cache[key] = self.eng.symeval(self.f.qualname, bind={self.anam: ("const", key)})
+        return cache[key]
 
 
 def _match_field(t, w: int):
@@ -184,6 +185,7 @@ def field_values(eng: Engine, ctx: Ctx, rid1: str, rid2: str, rid3: str, rid5: s
                     # (1 << W) is not polynomial; compare structurally
                     mk = st[3]
                     okm = mk[0] == "bin" and mk[1] == "-" and mk[3] == ("const", 1) and mk[2][0] == "bin" and mk[2][1] == "<<" and mk[2][2] == ("const", 1) and to_poly(mk[2][3], symn) == wpoly
+                    okm = okm or (mk[0] == "un" and mk[1] == "~" and mk[2][0] == "bin" and mk[2][1] == "<<" and mk[2][2] == ("const", -1) and to_poly(mk[2][3], symn) == wpoly)
                     if not okm:
                         fail(rid1, key, "variable-width mask", "(1 << NSat*NSig) - 1", show(mk)[:60], node)
                     break
@@ -242,6 +244,11 @@ def field_values(eng: Engine, ctx: Ctx, rid1: str, rid2: str, rid3: str, rid5: s
             from fractions import Fraction
 
             want_scaled = want * Fraction(scale) if scale is not None else want
+            # LOW = F mod 2^(w-1): under the sign test it is F - 2^(w-1), otherwise F itself
+            low_val = (Poly.sym("B") - (1 << (w - 1))) if neg else Poly.sym("B")
+            lp = lp.subst({"LOW": low_val})
+            want_scaled = want_scaled.subst({"LOW": low_val})
+            want = want.subst({"LOW": low_val})
             if lp != want_scaled:
                 if lp == want:
                     fail(rid3, key, "scaling", f"value * {scale}", "unscaled", node)
@@ -376,12 +383,23 @@ def threading(eng: Engine, ctx: Ctx, rid: str, model: DecoderModel):
         pool.extend(ret_terms)
         for e in calls:
             r = results[e.term]
-            used = any(mentions(t, lambda s, r=r: s == r) for t in pool)
+            used = any(mentions(t, lambda s, r=r, c=e.term: s == r or s == c) for t in pool if t is not e.term) or any(t == e.term for t in ret_terms)
             ctx.check(used, rid, q, f"result of {norm(e.node)[:60]}", expected="consumed by the next call or the return", found="offset result dropped", **eng.loc(f, e.node))
         if q != eng.attributes_driver:
+            def ret_off(t):
+                """offset component of a returned value: (off, idx) tuple, a decoder call returning such a tuple, or a gated mix."""
+                if t[0] == "tuple" and len(t[1]) == 2:
+                    return t[1][0]
+                if t in results and results[t] != t:
+                    return results[t]
+                if t[0] == "ite":
+                    a, b = ret_off(t[2]), ret_off(t[3])
+                    return ("ite", t[1], a, b) if a is not None and b is not None else None
+                return None
+
             for t in ret_terms:
-                ok = t[0] == "tuple" and len(t[1]) == 2 and valid(t[1][0])
-                ctx.check(ok, rid, q, "returned offset", expected="(current offset, index)", found=show(t)[:100], **loc)
+                ro = ret_off(t)
+                ctx.check(ro is not None and valid(ro), rid, q, "returned offset", expected="(current offset, index)", found=show(t)[:100], **loc)
         else:
             # fresh index stack
             lists = [v for info in se.loop_info.values() for k, v in (info.get("pre") or {}).items() if v[0] == "list" and not v[1]]
@@ -494,18 +512,32 @@ def groups(eng: Engine, ctx: Ctx, rid6: str, rid7: str, rid8: str, model: Decode
         gd = ("typed", dict, "gdict")
         se = eng.symeval(o.qualname, bind={o.params[1]: ("tuple", (("const", des), gd))})
         calls = [e for e in se.effects if e.kind == "call" and is_self_call(e.term, d.name)]
-        want_c = ("cmp", "==", None, ("const", des[1]))
-        okc = len(calls) == 1 and len(calls[0].guards) == 1 and calls[0].guards[0][1] is True
-        if okc:
-            c = calls[0].guards[0][0]
-            okc = c[0] == "cmp" and c[1] == "==" and c[3] == ("const", des[1]) and c[2][0] == "call" and c[2][2] == ("builtin", "getattr") and c[2][3] == (("self",), ("const", des[0]))
-        ctx.check(okc, rid7, o.qualname, f"condition for {des!r}", expected=f"getattr(self, {des[0]!r}) == {des[1]!r}", found=guard_text(calls[0].guards)[:90] if calls else "no call", **eng.loc(o, o.node))
+
+        def present(c, pol, des=des):
+            """+1: literal says the condition attribute equals the constant; -1: says it differs; 0: unrelated."""
+            if c[0] == "cmp" and c[1] in ("==", "!=") and c[3] == ("const", des[1]) and c[2][0] == "call" and c[2][2] == ("builtin", "getattr") and c[2][3] == (("self",), ("const", des[0])):
+                return 1 if (c[1] == "==") == pol else -1
+            return 0
+
+        okc = len(calls) == 1 and len(calls[0].guards) == 1 and present(*calls[0].guards[0]) == 1
+        ctx.check(okc, rid7, o.qualname, f"condition for {des!r}", expected=f"group decoded iff getattr(self, {des[0]!r}) == {des[1]!r}", found=guard_text(calls[0].guards)[:90] if calls else "no call", **eng.loc(o, o.node))
         rets = [e for e in se.effects if e.kind == "return"]
-        okr = len(rets) == 1 and rets[0].term[0] == "tuple" and len(rets[0].term[1]) == 2
-        if okr:
-            a, b = rets[0].term[1]
-            okr = a[0] == "ite" and a[3] == ("param", "offset") and b[0] == "ite" and b[3] == ("param", "index") and a[1] == b[1] == (calls[0].guards[0][0] if calls else None)
-        ctx.check(okr, rid7, o.qualname, f"absent group {des!r} consumes nothing", expected="(offset, index) unchanged when the condition fails", found=show(rets[0].term)[:100] if rets else "-", **eng.loc(o, o.node))
+        okr = bool(rets)
+        found = []
+        for r in rets:
+            for gds, leaf in leaves(r.term, r.guards):
+                pres = [present(c, p) for c, p in gds if present(c, p)]
+                found.append(f"{show(leaf)[:50]} under {guard_text(gds)[:40]}")
+                if -1 in pres:  # absent group
+                    okr = okr and leaf == ("tuple", (("param", "offset"), ("param", "index")))
+                elif 1 in pres:
+                    okr = okr and leaf[0] == "tuple" and len(leaf[1]) == 2 and leaf[1][0] != ("param", "offset")
+                elif leaf[0] == "tuple" and len(leaf[1]) == 2 and all(x[0] == "ite" for x in leaf[1]):
+                    a, bb = leaf[1]
+                    okr = okr and present(a[1], True) == 1 and a[3] == ("param", "offset") and bb[3] == ("param", "index") and a[1] == bb[1]
+                else:
+                    okr = False
+        ctx.check(okr, rid7, o.qualname, f"absent group {des!r} consumes nothing", expected="(offset, index) unchanged when the condition fails", found="; ".join(found)[:140] or "-", **eng.loc(o, o.node))
     ctx.instance("optional designators", no, 4)
 
     # ---- D8 dispatch
